@@ -262,3 +262,34 @@ contract(
              ("sorted", "is_sorted(result.entries)")],
     frame=["self"],
 )
+
+
+def strict_point_tier(S, name):
+    """wf point tier with pairwise distinct times (so that 'the colliding entries' is a single point and
+    deleteEntry's search by == finds exactly it); tiers with several points at one time are outside this contract"""
+    lo, hi = S.real(name + ".min"), S.real(name + ".max")
+    env = {"lo": lo, "hi": hi}
+    ents = S.list(name + ".entries", "Point",
+                  all="lo <= e.time and e.time <= hi and strip(e.label) == e.label",
+                  pair="a.time < b.time and not (a == b)", env=env)
+    ents.term.requires_distinct = True
+    S.assume("0 <= lo and lo <= hi and hi <= 1e15", env)
+    return S.obj(PT, name=S.str(name + ".name"), _entries=ents, minTimestamp=lo, maxTimestamp=hi,
+                 errorReporter=S.I.get_function("praatio.utilities.utils.reportWarning"))
+
+
+contract(
+    PT + ".insertEntry",
+    serves=["C11", "C05", "C13", "C10"],
+    configs=INSERT_CFG,
+    inputs=lambda S, cfg: dict(self=strict_point_tier(S, "self"),
+                               entry=S.I.make_nt(S.I.get_function("praatio.utilities.constants.Point"),
+                                                 [S.real("entry.time"), S.str("entry.label")], {}),
+                               collisionMode=cfg["collisionMode"],
+                               collisionReportingMode=cfg["collisionReportingMode"]),
+    requires=["0 <= entry.time", "entry.time <= 1e15"],
+    spec="spec.tiers.PointTier_insertEntry", spec_first=True,
+    ensures=[("in-span", "forall(self.entries, lambda p: self.minTimestamp <= p.time and p.time <= self.maxTimestamp)"),
+             ("stripped", "forall(self.entries, lambda p: strip(p.label) == p.label)"),
+             ("sorted", "is_sorted(self.entries)")],
+)
